@@ -97,6 +97,7 @@ func drawC06(rt *rapid.T, p *Plan, tier string) *Plan {
 	p.HeadersFirst = rapid.Bool().Draw(rt, "hdrfirst")
 	p.KnownHeader = rapid.Bool().Draw(rt, "knownhdr")
 	p.ConflictAttack = rapid.IntRange(0, 2).Draw(rt, "conflictattack") == 0
+	p.ForgedHeaders = rapid.IntRange(0, 2).Draw(rt, "forgedheaders") == 0
 	p.Tape = drawTape(rt, 128)
 	return p
 }
@@ -412,6 +413,12 @@ func (r *run) runC06() {
 		}
 		prev = b
 	}
+	if r.plan.ForgedHeaders && r.fail == nil {
+		r.forgedHeaderBatchAttack(V)
+		if r.fail != nil {
+			return
+		}
+	}
 	if r.plan.ConflictAttack && r.fail == nil {
 		r.conflictAttack(V, prev)
 		return
@@ -524,8 +531,8 @@ func (r *run) conflictAttack(V *Node, prev *block.Block) {
 			prev = b
 		}
 		if variant == 0 && V.BC.GetMemPool().ContainsKey(victim.Hash()) {
-			r.violate(sim.Violatef("c06-conflicting-tx-stays-pooled", "", "a pooled transaction named by the Conflicts attribute of a transaction of one of its signers in block %d is still in the pool after that block", b.Index))
-			return
+			// not demanded by C06 itself: what counts is whether the block carrying it is refused below
+			r.out.Probes["conflict_attack_victim_still_pooled"]++
 		}
 	case 2:
 		// two namers at different heights; the block arrives when the older one is just untraceable
@@ -623,6 +630,74 @@ func (r *run) headersFirstAttack(V *Node) {
 	}
 	if V.BC.BlockHeight() > bn.Index {
 		r.violate(sim.Violatef("rejected-block-changed-tip", "", "height moved to %d although block %d was rejected", V.BC.BlockHeight(), bn1.Index))
+	}
+}
+
+// forgedHeaders builds a two-header batch only a peer that lies can send: X has the index (and all other fields) of
+// the genuine header `base`, which the receiver already knows, but names the attacker's own key as next consensus;
+// N is a well-formed child of X (next index, later timestamp) signed by that key. A receiver has to judge N against
+// the parent it has stored itself, not against what the batch claims the parent to be.
+func (r *run) forgedHeaders(base *block.Header) (*block.Header, *block.Header) {
+	att := r.prod.kr.acct(0)
+	srih := r.plan.Proto.StateRootInHeader
+	recode := func(h *block.Header) *block.Header {
+		bw := io.NewBufBinWriter()
+		h.EncodeBinary(bw.BinWriter)
+		if bw.Err != nil {
+			sim.Harnessf("header recode: %v", bw.Err)
+		}
+		fresh := &block.Header{StateRootEnabled: srih}
+		br := io.NewBinReaderFromBuf(bw.Bytes())
+		fresh.DecodeBinary(br)
+		if br.Err != nil {
+			sim.Harnessf("header recode: %v", br.Err)
+		}
+		return fresh
+	}
+	x := *base
+	x.NextConsensus = att.ScriptHash()
+	xx := recode(&x)
+	n := block.Header{Version: base.Version, PrevHash: xx.Hash(), Timestamp: base.Timestamp + 1500, Nonce: 7, Index: base.Index + 1,
+		NextConsensus: att.ScriptHash(), StateRootEnabled: srih, PrevStateRoot: base.PrevStateRoot}
+	n.Script.VerificationScript = att.Script()
+	nn := recode(&n)
+	nn.Script.InvocationScript = att.SignHashable(uint32(r.P.BC.GetConfig().Magic), nn)
+	return xx, recode(nn)
+}
+
+// forgedHeaderBatchAttack: the batch of forgedHeaders is offered to V through AddHeaders; nothing may be recorded.
+func (r *run) forgedHeaderBatchAttack(V *Node) {
+	bc := V.BC
+	hh := bc.HeaderHeight()
+	at := hh - uint32(r.tape.Choose(int(min(hh, 2))+1))
+	base, err := bc.GetHeader(bc.GetHeaderHash(at))
+	if err != nil {
+		return
+	}
+	x, n := r.forgedHeaders(base)
+	if err := bc.VerifPersist(false); err != nil {
+		sim.Harnessf("flush: %v", err)
+	}
+	sim.Wait()
+	dumpBefore := V.Disk.Dump()
+	var aerr error
+	if v := sim.Recover(func() { aerr = bc.AddHeaders(x, n) }); v != nil {
+		r.violate(v)
+		return
+	}
+	sim.Wait()
+	r.out.Faults["forged_header_batch"]++
+	r.log.Addf("forged header batch [known index %d with another NextConsensus, child %d signed by that key] -> rejected=%v", x.Index, n.Index, aerr != nil)
+	if bc.HeaderHeight() != hh || (n.Index <= bc.HeaderHeight() && bc.GetHeaderHash(n.Index) == n.Hash()) {
+		r.violate(sim.Violatef("corrupted-block-accepted", "corrupted-block-accepted/forged-header-batch", "AddHeaders accepted header %d signed by a key that only the preceding header OF THE SAME BATCH (index %d, already known with other content) names as next consensus: header height %d -> %d (err=%v)", n.Index, x.Index, hh, bc.HeaderHeight(), aerr))
+		return
+	}
+	if err := bc.VerifPersist(false); err != nil {
+		sim.Harnessf("flush: %v", err)
+	}
+	sim.Wait()
+	if diff := rawDiff(dumpBefore, V.Disk.Dump()); len(diff) > 0 {
+		r.violate(sim.Violatef("rejected-block-changed-db", "rejected-block-changed-db/forged-header-batch", "after the refused forged header batch the database changed: %x", diff))
 	}
 }
 
